@@ -219,14 +219,41 @@ fn build(t: &mut Tape) -> (Program, bool, bool, &'static str) {
         }
     }
     // a later DEF replaces an earlier one
-    if g.t.chance(1, 5) {
-        let f = g.fns[0].clone();
-        let body = if f.ret == Ty::Str { E::Str("redefined".into()) } else { lit(42) };
+    if g.t.chance(1, 4) {
+        let mut f = g.fns[0].clone();
+        // ... possibly with another number of parameters: the calls that follow use the new list
+        match g.t.below(3) {
+            0 if f.params.len() > 1 => {
+                f.params.pop();
+            }
+            1 if f.params.len() < 4 && !f.params.iter().any(|(n, _)| n.text() == "Z9") => f.params.push((Name::new("Z9"), Ty::Sng)),
+            _ => {}
+        }
+        let mut body = if f.ret == Ty::Str { E::Str("redefined".into()) } else { lit(42) };
+        if f.ret != Ty::Str {
+            for (pn, ty) in f.params.iter() {
+                if *ty != Ty::Str {
+                    body = bin(Bin::Add, body, E::Var(pn.clone()));
+                }
+            }
+            body = E::Call(match f.ret { Ty::Int => "CINT", Ty::Dbl => "CDBL", _ => "CSNG" }, vec![body]);
+        }
         lines.push(vec![Stmt::Def { name: f.name.clone(), params: f.params.iter().map(|(n, _)| n.clone()).collect(), body }]);
+        g.fns[0] = f;
     }
     let scope: Vec<(Name, Ty)> = vec![];
     let ncalls = 2 + g.t.below(6);
-    for _ in 0..ncalls {
+    let deftype_at = if g.t.chance(1, 4) { Some(1 + g.t.below(ncalls)) } else { None };
+    for ci in 0..ncalls {
+        if Some(ci) == deftype_at {
+            // a DEFtype between two calls: undecorated parameters follow their letter from now on
+            let (ty, a, b) = *g.t.pick(&[(Ty::Int, 'X', 'X'), (Ty::Int, 'A', 'A'), (Ty::Dbl, 'P', 'P'), (Ty::Int, 'F', 'F'), (Ty::Dbl, 'A', 'F'), (Ty::Sng, 'A', 'Z'), (Ty::Int, 'P', 'X')]);
+            lines.push(vec![Stmt::DefType(ty, a, b)]);
+            // DEFtype may drop variables (C06's lenient zone): give every global a known value again
+            let set = |n: &str, e: E| Stmt::Let { lv: Lval::Var(Name::new(n)), e, kw: false };
+            lines.push(vec![set("A", lit(2)), set("B%", lit(3)), set("C#", E::Lit("2.5".into())), set("S$", E::Str("glob".into())), set("X", lit(4)), set("G", lit(1)), set("T$", E::Str("t".into()))]);
+            lines.push(vec![set("N%", lit(3)), set("P", lit(5)), set("F", lit(6)), set("H%", lit(0)), set("D!", lit(0)), set("U$", E::Str("".into()))]);
+        }
         let s: Vec<Stmt> = match g.t.below(9) {
             0 | 1 => {
                 let a = g.call(3, &scope, false);
@@ -448,7 +475,7 @@ fn check_case(item: &str, _ctx: &Ctx) -> Outcome {
 pub fn property() -> Property {
     Property {
         id: "C10",
-        rule: "Cases: proptest-generated programs defining 1-6 functions (typed names FNA FNB% FNC# FND$ FNE!, also names that differ in the type character only such as FNA and FNA$, 1-4 parameters of every type whose names shadow program variables, bodies over parameters, globals and earlier functions up to depth 6, a later DEF replacing an earlier one), DEFtype in effect for the letters of parameters and for the letter F; \
+        rule: "Cases: proptest-generated programs defining 1-6 functions (typed names FNA FNB% FNC# FND$ FNE!, also names that differ in the type character only such as FNA and FNA$, 1-4 parameters of every type whose names shadow program variables, bodies over parameters, globals and earlier functions up to depth 6, a later DEF replacing an earlier one, possibly with another number of parameters), DEFtype in effect for the letters of parameters and for the letter F; \
 calls inside PRINT lists, array subscripts, FOR bounds, IF conditions, other calls' arguments, WHILE loops; a global changed between two identical calls (evaluation at call time); the shadowed globals printed afterwards; error endings: wrong argument count, call before the DEF executed, undefined function, runaway recursion, DEF in direct mode (of a new name and of a name the program defines; the program's function must survive it), followed by more direct statements. \
 Oracle: reference interpreter (call by value, each argument converted like an assignment to its parameter's own type, locals shadow, everything else read at call time); whole transcripts compared. Literal cases pin the documented error codes and the zero-parameter diagnostic. \
 Non-trivial: a call nested in another call's argument, in a subscript or in a loop bound, or any executed call with shadowing parameters. Distinct by program text.",
